@@ -29,15 +29,16 @@ PATHSETS = [['/r'], ['/r', '/r'], ['/r', '/r/D1'], ['/r/D1', '/r'], ['/r/D1/D2',
 PATTERNS = [[], ['--tests-pattern', '^(tests|checks)$'], ['--tests-pattern', '^f?tests$', '--test-file-pattern', '^(test|a)']]
 IDENT = re.compile(r'[_a-z]\w*$', re.I)
 IGNORE = {'.git', 'node_modules', '__pycache__'}
+DEFAULT_IGNORE_DIR = {'.git', '.svn', 'CVS', '{arch}', '.arch-ids', '_darcs'}       # documented defaults of --ignore_dir
 
 
-def build(d1, d2, f_root, f1a, f1b, f2, init1, init2, rev):
+def build(d1, d2, f_root, f1a, f1b, f2, init1, init2, rev, link=0):
     t = FO.Tree()
     t.add_dir('/r')
     D1 = '/r/' + d1
     D2 = D1 + '/' + d2
-    t.add_dir(D1)
-    t.add_dir(D2)
+    t.add_dir(D1, link=(link == 1))        # link: the directory is a symlink (same rules as a real directory)
+    t.add_dir(D2, link=(link == 2))
     t.add_dir('/r/zlast')
     for d, names in (('/r', [f_root, 'zz.py']), (D1, [f1a, f1b] + (['__init__.py'] if init1 else [])), (D2, [f2, 'tests.py'] + (['__init__.py'] if init2 else [])),
                      ('/r/zlast', ['tests.py'])):
@@ -85,14 +86,15 @@ def expected(tree, roots, usecompiled, tests_pat, file_pat, ignore_dir):
     return out
 
 
-def setup(d1, d2, f_root, f1a, f1b, f2, init1, init2, rev, usec, pat, paths):
+def setup(d1, d2, f_root, f1a, f1b, f2, init1, init2, rev, usec, pat, paths, link=0):
     d1, d2 = pick(DNAMES, d1), pick(['tests', 'sub'], d2)
     f_root, f1a, f1b, f2 = (pick(FNAMES, x) for x in (f_root, f1a, f1b, f2))
     init1, init2, rev, usec = map(cb, (init1, init2, rev, usec))
     pat = pick(PATTERNS, pat)
     pathsk = pick(PATHSETS, paths)
+    link = ci(link, 0, 2)
     with untraced():
-        tree, D1, D2 = build(d1, d2, f_root, f1a, f1b, f2, init1, init2, rev)
+        tree, D1, D2 = build(d1, d2, f_root, f1a, f1b, f2, init1, init2, rev, link)
         roots = [p.replace('/r/D1/D2', D2).replace('/r/D1', D1) for p in pathsk]
         o = RW.options((['--usecompiled'] if usec else []) + pat)
         o.test_path = [(p, '') for p in roots]
@@ -113,7 +115,7 @@ def files(*a):
     with untraced():
         tp = re.compile(desc[10][1]) if desc[10] else re.compile('^tests$')
         fp = re.compile(desc[10][3]) if len(desc[10]) > 2 else re.compile('^test')
-        exp = expected(tree, roots, desc[9], tp, fp, o.ignore_dir)
+        exp = expected(tree, roots, desc[9], tp, fp, DEFAULT_IGNORE_DIR)
         why = None
         if fos.calls:
             why = 'discovery modified the file system: %r' % (fos.calls[:2],)
@@ -177,7 +179,7 @@ def suites(d1, f1a, f1b, init1, rev, mp, pkg, failkind, failwhich):
     finally:
         F.os, F.import_name = saved
     with untraced():
-        exp_files = expected(tree, roots, False, re.compile('^tests$'), re.compile('^test'), o.ignore_dir)
+        exp_files = expected(tree, roots, False, re.compile('^tests$'), re.compile('^test'), DEFAULT_IGNORE_DIR)
         mods = []
         for p in exp_files:
             m = p[len('/r/'):-3].replace('/', '.')
@@ -209,12 +211,12 @@ def suites_reach(*a):
 
 
 _P = [('d1', 'int'), ('d2', 'int'), ('f_root', 'int'), ('f1a', 'int'), ('f1b', 'int'), ('f2', 'int'), ('init1', 'bool'), ('init2', 'bool'), ('rev', 'bool'),
-      ('usec', 'bool'), ('pat', 'int'), ('paths', 'int')]
+      ('usec', 'bool'), ('pat', 'int'), ('paths', 'int'), ('link', 'int')]
 _C = ', '.join(n for n, _ in _P)
 _ND, _NF = len(DNAMES), len(FNAMES)
-_B = ('0 <= d1 < %d and 0 <= d2 <= 1 and 0 <= f_root < %d and 0 <= f1a < %d and 0 <= f1b < %d and 0 <= f2 < %d and 0 <= pat < %d and 0 <= paths < %d'
+_B = ('0 <= link <= 2 and 0 <= d1 < %d and 0 <= d2 <= 1 and 0 <= f_root < %d and 0 <= f1a < %d and 0 <= f1b < %d and 0 <= f2 < %d and 0 <= pat < %d and 0 <= paths < %d'
       % (_ND, _NF, _NF, _NF, _NF, len(PATTERNS), len(PATHSETS)))
-_Q = (_B + ' and f_root == 2 and d2 == 0 and f2 == 1 and f1b <= 3 and init2 and (paths == 0 or f1a <= 3) and (paths <= 3) '
+_Q = (_B + ' and (link == 0 or (paths == 0 and pat == 0 and not usec and f1a <= 1)) and f_root == 2 and d2 == 0 and f2 == 1 and f1b <= 3 and init2 and (paths == 0 or f1a <= 3) and (paths <= 3) '
       'and (pat == 0 or (d1 <= 2 and f1a <= 3 and paths == 0)) and (not usec or (d1 <= 1 and f1a >= 4 and paths == 0 and pat == 0))')
 _T = _B + ' and f_root <= 5 and f2 <= 5'
 _PS = [('d1', 'int'), ('f1a', 'int'), ('f1b', 'int'), ('init1', 'bool'), ('rev', 'bool'), ('mp', 'int'), ('pkg', 'bool'), ('failkind', 'int'), ('failwhich', 'int')]
@@ -224,7 +226,7 @@ _QS = _BS + ' and d1 <= 2 and f1a <= 3 and f1b <= 1 and not rev and (failkind ==
 
 
 def _v(**kw):
-    v = dict(d1=0, d2=0, f_root=2, f1a=0, f1b=1, f2=1, init1=True, init2=True, rev=False, usec=False, pat=0, paths=0)
+    v = dict(d1=0, d2=0, f_root=2, f1a=0, f1b=1, f2=1, init1=True, init2=True, rev=False, usec=False, pat=0, paths=0, link=0)
     v.update(kw)
     return v
 
@@ -254,7 +256,7 @@ SPEC = {
          'reach': 'files_reach', 'reach_bounds': {'quick': _B + ' and d1 == 0 and paths == 0 and pat == 0 and not usec and init1 and init2',
                                                   'thorough': _B + ' and d1 == 0 and paths == 0 and pat == 0 and not usec and init1 and init2'},
          'timeout': {'quick': 300, 'thorough': 1700},
-         'fidelity': [_v(), _v(d1=2, pat=2, f1a=3, f1b=2, rev=True, paths=4), _v(usec=True, f1a=5, f1b=9, init1=False, f2=11), _v(d1=3, paths=2), _v(pat=1, f1b=8, paths=3)]},
+         'fidelity': [_v(), _v(d1=2, pat=2, f1a=3, f1b=2, rev=True, paths=4), _v(usec=True, f1a=5, f1b=9, init1=False, f2=11), _v(d1=3, paths=2), _v(pat=1, f1b=8, paths=3), _v(d1=6, link=1), _v(d1=1, link=2)]},
         {'name': 'suites', 'fn': 'suites', 'params': _PS, 'call': _CS,
          'bounds': {'quick': _QS, 'thorough': _BS},
          'slices': {'quick': ['mp == %d and %s' % (m, p) for m in range(len(MODPAT)) for p in ('pkg', 'not pkg')],
